@@ -1136,9 +1136,23 @@ func RespellKeyValues(t *rapid.T, v V, keys []string) V {
 		}
 		return out
 	case map[string]V:
+		// Only the key values of this member are respelled; what lies below
+		// its other fields stays as it is (copies of a member that differ in
+		// the spelling of a non-key field are the D41 input class, which only
+		// the random leg of C01 generates and judges).
+		hasKey := false
+		for _, k := range keys {
+			if _, ok := x[k]; ok {
+				hasKey = true
+			}
+		}
 		out := map[string]V{}
 		for _, k := range val.Keys(x) {
-			out[k] = RespellKeyValues(t, x[k], keys)
+			if hasKey {
+				out[k] = x[k]
+			} else {
+				out[k] = RespellKeyValues(t, x[k], keys)
+			}
 		}
 		for _, k := range keys {
 			if kv, ok := out[k]; ok && Chance(t, "respellKey", 60) {
